@@ -110,7 +110,9 @@ func realIndex(tars [][]byte) indexResult {
 		Vscnrs:     indexer.MergeVS(ps, ds, rs, fs),
 		Resolvers:  []indexer.Resolver{&whiteout.Resolver{}},
 	}
-	opts.LayerScanner, err = indexer.NewLayerScanner(ctx, 4, opts)
+	// one scan at a time: the store hands out ids in arrival order, and the protocol lines
+	// (which carry the ids) must be a function of the seed
+	opts.LayerScanner, err = indexer.NewLayerScanner(ctx, 1, opts)
 	if err != nil {
 		return indexResult{Err: err}
 	}
